@@ -164,3 +164,36 @@ prop("C13",
      unverified_surroundings=["mappers with bespoke state not in the "
                               "structural list (code generation mappers, "
                               "visualization)"])
+
+prop("C05",
+     level="proof",
+     level_text=(
+         "Deductive proof per transformation method: with the recursion "
+         "replaced by its contract (children map to value-equal images), the "
+         "real map_* source returns the homomorphic image of the node (same "
+         "class, every array child the image of the corresponding child, "
+         "every other field equal), so the value is preserved by congruence; "
+         "the input node, its nested records and its tuple/dict objects are "
+         "not written; tag-adding operations change tags only; dead-code "
+         "elimination rewrites exactly pytato.zero lambdas."),
+     level_note=(
+         "Value preservation is over the congruence 'a node's value is a "
+         "function of its class, its non-array fields and its children's "
+         "values' (trusted meaning of nodes; lowering itself is C02). "
+         "Idempotence of deduplicate/DCE/MPMS and whole-graph statements "
+         "follow by the induction of DESIGN Appendix A.4 (paper). "
+         "unify_axes_tags' equation solving and AxesTagsEquationCollector are "
+         "not verified (they only choose which tags are added)."),
+     technique="contract-based deductive verification: symbolic execution of "
+               "the real transformation methods with recursion replaced by "
+               "its contract",
+     design_ref="DESIGN.md §6 C05",
+     explanation="see contracts/c05_transforms.py, c13_caches.py",
+     structural_bound="every copy-family mapper x node kind; all children "
+                      "changed / exactly one child changed / none",
+     trusted_base=["dataclasses.replace", "Taggable.tagged of pytools"],
+     assumptions=["[[image(c)]] = [[c]] for every child (induction "
+                  "hypothesis)"],
+     unverified_surroundings=["pytato.transform.metadata (unify_axes_tags "
+                              "solver)", "MPMSMaterializer.map_* bookkeeping "
+                              "beyond _materialize_if_mpms"])
